@@ -233,6 +233,8 @@ VALID_CONFIGS = [
     {"scalars": {"Date": {"type": "str"}}},
     {"base_client_name": "MyBase", "base_client_file_path": "base.py"},
     {"target_package_name": "_private_pkg9"},
+    {"__remote__": True, "remote_schema_url": "http://x/graphql", "remote_schema_headers": {"Authorization": "$VERIF_C17_TOKEN", "X-Plain": "v"}, "remote_schema_verify_ssl": False},
+    {"__remote__": True, "remote_schema_url": "http://x/graphql", "remote_schema_headers": {}},
 ]
 
 
@@ -244,11 +246,24 @@ def check_valid_configs(i: int, pre: int) -> bool:
     p = pick(pre, 2)
     with NoTracing():
         with opened_auditwall():
-            job = {"schema": SDL, "queries": OPS, "config": dict(VALID_CONFIGS[k]), "files": {"base.py": BASE_PY}}
+            import copy
+
+            cfg = copy.deepcopy(VALID_CONFIGS[k])
+            job = {"schema": SDL, "queries": OPS, "config": cfg, "files": {"base.py": BASE_PY}}
+            if cfg.pop("__remote__", False):
+                job["schema"] = None
+                job["introspection"] = {"sdl": SDL}
+                os.environ["VERIF_C17_TOKEN"] = "secret-token"
             if p == 1:
                 job["preexisting"] = dict(PREV)
-            r = gen.generate(job)
+            try:
+                r = gen.generate(job)
+            finally:
+                os.environ.pop("VERIF_C17_TOKEN", None)
             ok = bool(r.get("ok")) and r.get("config_before") == r.get("config_after")
+            if ok and job.get("introspection") is not None and cfg.get("remote_schema_headers"):
+                calls = r.get("http_calls") or []
+                ok = len(calls) == 1 and calls[0]["headers"] == {"Authorization": "secret-token", "X-Plain": "v"} and calls[0]["verify"] is False
     return ok
 
 
